@@ -263,17 +263,40 @@ func checkBits(a, b int64) string {
 		}
 		return strconv.FormatInt(v, 10)
 	}
-	al, bl := lit(a), lit(b)
-	f := fmt.Sprintf("[%s & %s, %s | %s, %s ^ %s, ~%s, ~%s, ~~%s]", al, bl, al, bl, al, bl, al, bl, al)
-	arr, msg := evalArr(f, nil)
-	if msg != "" {
-		return msg
+	// the operands are integer VALUES: every spelling of the same integer must behave alike
+	spell := func(v int64, style int) string {
+		l := lit(v)
+		switch style {
+		case 1:
+			return "(" + l + " * 1.0)"
+		case 2:
+			if v < 0 {
+				return "(-" + strconv.FormatInt(-v, 10) + ".0)"
+			}
+			return l + ".0"
+		case 3:
+			if v != 0 && v%100 == 0 {
+				return "(" + lit(v/100) + " * 1e2)"
+			}
+			return "(" + l + " + 0.00)"
+		case 4:
+			return "(" + l + " * 100 / 100)"
+		}
+		return l
 	}
 	want := []int64{a & b, a | b, a ^ b, ^a, ^b, a}
 	names := []string{"&", "|", "^", "~a", "~b", "~~a"}
-	for i, w := range want {
-		if !ratEq(arr[i], new(big.Rat).SetInt64(w)) {
-			return fmt.Sprintf("a=%d b=%d: %s = %s, two's complement says %d", a, b, names[i], obs.Show(arr[i]), w)
+	for style := 0; style < 5; style++ {
+		al, bl := spell(a, style), spell(b, (style+2)%5)
+		f := fmt.Sprintf("[%s & %s, %s | %s, %s ^ %s, ~%s, ~%s, ~~%s]", al, bl, al, bl, al, bl, al, bl, al)
+		arr, msg := evalArr(f, nil)
+		if msg != "" {
+			return msg
+		}
+		for i, w := range want {
+			if !ratEq(arr[i], new(big.Rat).SetInt64(w)) {
+				return fmt.Sprintf("a=%s b=%s: %s = %s, two's complement says %d", al, bl, names[i], obs.Show(arr[i]), w)
+			}
 		}
 	}
 	return ""
@@ -458,7 +481,7 @@ func TestC18MaxMin(t *testing.T) {
 
 // TestC18Bits: & | ^ ~ on integers below 2^53 in magnitude.
 func TestC18Bits(t *testing.T) {
-	run := h.Begin("C18", "bits", "grid + rapid: all pairs over {0, +-1, +-2, +-3, 5, 255, -256, 2^31, 2^32+-1, +-(2^53-1), ...} and random pairs |v|<2^53 (negatives, powers of two +-1); oracle: Go int64 & | ^ and ~a == -a-1 (two's complement); non-trivial: a negative operand; distinct by pair")
+	run := h.Begin("C18", "bits", "grid + rapid: all pairs over {0, +-1, +-2, +-3, 5, 255, -256, 2^31, 2^32+-1, +-(2^53-1), ...} and random pairs |v|<2^53 (negatives, powers of two +-1); each operand in five spellings of the same integer value (plain, x*1.0, x.0, x+0.00 or (x/100)*1e2, x*100/100); oracle: Go int64 & | ^ and ~a == -a-1 (two's complement); non-trivial: a negative operand; distinct by pair")
 	defer run.End(t)
 	grid := []int64{0, 1, -1, 2, -2, 3, -3, 5, 6, 255, -256, 1 << 31, 1<<32 - 1, 1<<32 + 1, -(1 << 32), 1<<53 - 1, -(1<<53 - 1), 1 << 52, 0x5555555555555, 0xAAAAAAAAAAAAA}
 	var idx int64
